@@ -13,6 +13,8 @@
 
 /* stubs: the self-test does not use the runner */
 int vf_tier, vf_replaying, vf_verbose;
+double vf_deadline_left(void) { return 1e9; }
+void vf_not_exhaustive(const char* why) { (void)why; }
 uint64_t vf_seed;
 size_t vf_hex(char* out, size_t cap, const void* p, size_t n) {
   static const char* d = "0123456789abcdef";
